@@ -158,13 +158,29 @@ class SlabRidgeCase(RidgeCase):
               "ridge coordinates": [[[lon0, lat0 + rng.choice([-3, 0, 2])], [lon0 + 60, lat0 + rng.choice([-2, 0, 3])]]], "coupling depth": 80e3, "taper distance": 100e3,
               "min distance slab top": -100e3, "max distance slab top": 150e3, "reference model name": rng.choice(["half space model", "plate model"])}
         self.lat0 = lat0
+        if rng.random() < 0.4:
+            # a vertical fault instead: the points exactly below its trace are INTERIOR points (distance 0 from the fault plane), so the 'check point is on or below the
+            # trench' branch of the frame construction is reached away from any membership boundary
+            self.w = {"version": "1.1", "coordinate system": {"model": "spherical", "depth method": "begin segment"},
+                      "features": [{"model": "fault", "name": "s", "coordinates": [[self.trench, lat0 - 5], [self.trench, lat0 + 5]], "dip point": [self.trench + 10, lat0],
+                                    "segments": [{"length": 400e3, "thickness": [150e3], "angle": [90]}],
+                                    "temperature models": [{"model": "linear", "max distance fault center": 75e3, "center temperature": 400, "side temperature": 1500}]}]}
+            return
         self.w = {"version": "1.1", "coordinate system": {"model": "spherical", "depth method": "begin segment"},
                   "features": [{"model": "subducting plate", "name": "s", "coordinates": [[self.trench, lat0 - 5], [self.trench + rng.choice([0, 1]), lat0 + 5]], "dip point": [self.trench + 10, lat0],
                                 "segments": [{"length": 400e3, "thickness": [150e3], "top truncation": [-100e3], "angle": [rng.choice([30, 45, 60])]}], "temperature models": [mc]}]}
 
     def queries(self, n):
         r = self.rng
-        return [([self.trench + r.uniform(0.1, 2.5), self.lat0 + r.uniform(-4, 4)], float(r.choice([20e3, 60e3, 120e3, 200e3]))) for _ in range(n)]
+        qs = [([self.trench + r.uniform(0.1, 2.5), self.lat0 + r.uniform(-4, 4)], float(r.choice([20e3, 60e3, 120e3, 200e3]))) for _ in range(n)]
+        # exactly below the trench: its two end coordinates and (when the trench runs along a meridian) points of the line between them - the 'check point is on or below the
+        # trench' branch of the slab frame
+        cs = self.w["features"][0]["coordinates"]
+        qs[0] = (list(cs[0]), float(r.choice([10e3, 50e3])))
+        qs[1] = (list(cs[1]), float(r.choice([10e3, 50e3])))
+        if cs[0][0] == cs[1][0]:
+            qs[2] = ([cs[0][0], self.lat0 + r.choice([-2.5, 0.0, 1.25])], float(r.choice([10e3, 50e3, 90e3])))
+        return qs
 
 
 class TrenchCase:
@@ -275,15 +291,15 @@ def on_discontinuity(g, path_a, path_b, sp, d, fpt, spherical):
     rc, out, err = proto.run_harness(lines)
     if rc != 0 or len(out) != len(lines) or out[:2] != ["ok", "ok"]:
         return False
+    # a jump that belongs to the geometry shows in BOTH frames (rounding may move it by far less than 0.1 mm); a jump in one frame only is a disagreement about the structure
+    jumps = []
     for blk in (out[2:9], out[9:16]):
         ans = [parse_answer(o) for o in blk]
         if any(a[0] != "ok" for a in ans):
-            return True
+            jumps.append(True); continue
         c = ans[0][1]
-        for a in ans[1:]:
-            if len(a[1]) != len(c) or any(not close_vals(x, y) for x, y in zip(a[1], c)):
-                return True
-    return False
+        jumps.append(any(len(a[1]) != len(c) or any(not close_vals(x, y) for x, y in zip(a[1], c)) for a in ans[1:]))
+    return all(jumps)
 
 
 def collinear_trench_differs(g, w, path_a, path_b, sp, d, fpt):
